@@ -11,8 +11,8 @@ import posixpath
 
 from kernel import core
 
-COMPS = ['', '.', '..', 'a', 'b', 'a.b', 'a b', '.a']
-NAMES = ['a', 'b', 'a.b', 'a b', '.a']
+COMPS = ['', '.', '..', 'a', 'b', 'a.b', 'a b', '.a', '..a']      # '..a': starts with two dots but is an ordinary name
+NAMES = ['a', 'b', 'a.b', 'a b', '.a', '..a']
 PREFIXES = ['', '/', 'C:/', 'C:']          # relative, absolute, drive-abs, drive-rel
 TRAILS = ['', '/']
 BASES = None
